@@ -214,6 +214,9 @@ type tbOut struct {
 	SecondErr   string   `json:"second_err"`
 	SecondItems []string `json:"second_items"`
 	StatsBack   bool     `json:"stats_returned"`
+	EnqTried    bool     `json:"enqueue_tried"`  // an enqueue by the gateway while the other process writes
+	EnqErr      string   `json:"enqueue_err"`    // "" = the gateway's enqueue reported success
+	EnqStored   bool     `json:"enqueue_stored"` // the message of that enqueue is in the queue afterwards
 	Err         string   `json:"err,omitempty"`
 }
 
@@ -250,10 +253,15 @@ func tbRun(path string, c tbCase) (out tbOut) {
 	var reads atomic.Int64
 	var firstResp queue.DequeueResponse
 	var firstErr error
+	var enqTried bool
+	var enqErr error
 	otherNow := func() time.Time {
 		if armed.Load() {
 			if reads.Add(1) == c.HookAt && attempted.CompareAndSwap(false, true) {
 				firstResp, firstErr = A.Dequeue(queue.DequeueRequest{Route: "/r", Target: "t", Batch: 1, LeaseTTL: time.Minute})
+				// an enqueue arriving in the same moment (a store opened without a depth limit inserts without a transaction of its own)
+				enqTried = true
+				enqErr = A.Enqueue(queue.Envelope{ID: "evt_3", Route: "/r3", Target: "t", Payload: []byte("z")})
 			}
 		}
 		return nowAt()
@@ -307,6 +315,13 @@ func tbRun(path string, c tbCase) (out tbOut) {
 	}
 	for _, it := range firstResp.Items {
 		out.FirstItems = append(out.FirstItems, it.ID)
+	}
+	out.EnqTried = enqTried
+	if enqErr != nil {
+		out.EnqErr = enqErr.Error()
+	}
+	if lr, err := B.LookupMessages(queue.MessageLookupRequest{IDs: []string{"evt_3"}}); err == nil {
+		out.EnqStored = len(lr.Items) == 1
 	}
 	// the other process is done; the gateway polls again
 	off.Add(int64(time.Second))
